@@ -306,6 +306,8 @@ class HttpParser:
         if data == b'\r\n':
             self.__on_headers_complete = True
             self._buf = []
+            # no Content-Length either: account for a body like for any other message without one
+            self._clen_rest = maxsize
             return 0
         idx = data.find(b'\r\n\r\n')
         if idx < 0:  # we don't have all headers
